@@ -326,8 +326,11 @@ def _check_tachyons(F, R, rid="R4", consumed=True):
             if x.get("k") == "StringLiteral":
                 label = x.get("v")
         inst = "%s: flag_tachyon(%s) if %s" % (f["name"].split("::")[-1], label, gs)
-        ok = len(gs) == 1 and gs[0][1] is True and re.match(r"^\((\w+)(\.minCoeff\(\))? < 0\)$", gs[0][0]) is not None
-        var = re.match(r"^\((\w+)", gs[0][0]).group(1) if ok else None
+        # `X.minCoeff() < 0`, `X < 0` (scalar) or `(X < 0).any()`: the minimum over ALL squared masses of the sector
+        m_ = re.match(r"^\((\w+)(\.minCoeff\(\))? < 0\)$", gs[0][0]) or re.match(r"^\(?\((\w+) < 0\)\.any\(\)\)?$", gs[0][0]) \
+            if len(gs) == 1 else None
+        ok = len(gs) == 1 and gs[0][1] is True and m_ is not None
+        var = m_.group(1) if ok else None
         # the tested variable is the squared mass that is subsequently replaced by sqrt(|.|)
         if ok:
             body = f["body"].get("c", [])
